@@ -137,6 +137,11 @@ func NewDynamicCallableFunction(
 	if err != nil {
 		return nil, err
 	}
+	// Without a type handler the function would not count as dynamic, and Call would refuse the handler's
+	// (any, error) results as an unexpected return count.
+	if typeHandler == nil {
+		return nil, fmt.Errorf("a dynamic function needs a type handler, but got nil")
+	}
 	// Validate the output type
 	returnCount := parsedHandler.Type().NumOut()
 
